@@ -28,8 +28,8 @@
 (*              step   (s, a, r, ns) of end_of_timestep, r scaled by 1024, plus the      *)
 (*                     internal q_matrix when it changed (integers, unit 1/SC)           *)
 (*              end    end_of_episode                                                    *)
-(*              final  the returned q_values, their exact ranks and the support of the   *)
-(*                     returned policy                                                   *)
+(*              final  the returned q_values, their exact ranks, the support of the      *)
+(*                     returned policy and the exact-side flags (see JudgeExact)         *)
 (*              cut    the run did not return (only the steps before are judged)         *)
 (*            The trace actions replay the bookkeeping of (R) from the logged arguments, *)
 (*            judge every clause of the property in integer arithmetic and accumulate    *)
@@ -170,6 +170,20 @@ JudgePolicy(b, rk, pol) ==
 PolicyDrift(b, rk, pol) ==
   IF \E s \in St(b) : HasRank(b, rk, s) /\ \E a \in Ac(b) : pol[s][a] = 0 /\ rk[s][a] = TopRank(b, rk, s)
   THEN {"policy-omits-a-maximiser"} ELSE {}
+\* exact side of the final event.  Facts about the raw 53-bit floats that 32-bit integers cannot hold are
+\* established by the recorder in exact rational arithmetic and logged as flags (like the ranks):
+\*   xo[s][a] = 1 iff the returned value IS the optimistic value: the double nearest to rmax / (1 - gamma)
+\*              (quotient of the two double parameters) or the IEEE evaluation of that expression
+\*   xr[s][a] = 1 iff the exact rational Bellman residual of the pair on the model (xc, xt) is below the
+\*              configured tolerance (+ B 2^-40 for the float64 evaluation of the code's own stopping test)
+\* The spec decides which pairs are untried / known, and (xc, xt) must be its own model (else the flags mean
+\* nothing: reported as "exact-side-model-differs", which the harness treats as a machinery failure).
+JudgeExact(b, c, e) ==
+  LET rows == {s \in St(b) : Len(e.xo[s]) = b.K} IN
+  (IF \E s \in rows : \E a \in Ac(b) : ~IsKnown(b, c, s, a) /\ e.xo[s][a] = 0
+   THEN {"unknown-pair-not-exactly-optimistic"} ELSE {})
+  \cup (IF \E s \in rows : \E a \in Ac(b) : IsKnown(b, c, s, a) /\ e.xr[s][a] = 0
+        THEN {"empirical-bellman-residual"} ELSE {})
 \* dense ranks of an exact table (model checking mode)
 RanksOf(b, q) == [s \in St(b) |-> [a \in Ac(b) |->
                     1 + Cardinality({q[s][a2] : a2 \in {x \in Ac(b) : RLess(q[s][x], q[s][a])}})]]
@@ -253,8 +267,9 @@ TrEnd ==
 \* the returned q_values and policy: every value clause of the statement is judged here
 TrFinal ==
   /\ pc = "trace" /\ l <= Len(M.ev) /\ Ev.k = "final"
-  /\ LET f1 == JudgeQ(M, cnt, tcnt, rsum, Ev.q) \cup JudgePolicy(M, Ev.rk, Ev.pol)
+  /\ LET f1 == JudgeQ(M, cnt, tcnt, rsum, Ev.q) \cup JudgePolicy(M, Ev.rk, Ev.pol) \cup JudgeExact(M, cnt, Ev)
          d1 == JudgeMachine(M, Q, Ev.q) \cup PolicyDrift(M, Ev.rk, Ev.pol)
+               \cup (IF Ev.xc # cnt \/ Ev.xt # tcnt THEN {"exact-side-model-differs"} ELSE {})
                \cup (IF obs # <<>> /\ \E s \in St(M) : HasRow(M, obs, s) /\ HasRow(M, Ev.q, s) /\ obs[s] # Ev.q[s]
                      THEN {"returned-q-differs-from-last-q-matrix"} ELSE {})
      IN /\ fail' = fail \cup {<<x, l>> : x \in f1}
